@@ -198,9 +198,12 @@ def run_check(prop, mod, tier, seed):
     model_obs = [None] * len(cases)
     model_error = None
     if driver_ok:
-        idx = [i for i, c in enumerate(cases) if mod.model_case(c) is not None]
+        idx = [i for i, c in enumerate(cases) if mod.model_case(c) is not None and not (isinstance(results[i][0], dict) and "adapter_error" in results[i][0])]
+        def minput(i):
+            # trace validation: the model's input is the implementation's own record
+            return mod.model_input(cases[i], results[i][0]) if hasattr(mod, "model_input") else mod.model_case(cases[i])
         try:
-            res = run_model([mod.model_case(cases[i]) for i in idx])
+            res = run_model([minput(i) for i in idx])
             for i, r in zip(idx, res):
                 model_obs[i] = r
         except (DriverError, Infra) as e:
@@ -287,11 +290,13 @@ def run_check(prop, mod, tier, seed):
                 what["correspondence_adapter_errors"] = [{"case": strip_cc(c), "error": o} for c, o in adapter_errors[:3]]
             if disagreements:
                 i, d = disagreements[0]
+                def mrun(c, o):
+                    return run_model([mod.model_input(c, o) if hasattr(mod, "model_input") else mod.model_case(c)])[0]
                 def still_differs(c):
-                    o = mod.run_impl(c); m = run_model([mod.model_case(c)])[0]
+                    o = mod.run_impl(c); m = mrun(c, o)
                     return mod.compare(c, o, m) is not None
                 small = shrink(cases[i], still_differs)
-                o = mod.run_impl(small); m = run_model([mod.model_case(small)])[0]
+                o = mod.run_impl(small); m = mrun(small, o)
                 what["correspondence"] = {"domain": small.get("op") if isinstance(small, dict) else None, "case": strip_cc(small),
                                           "first_difference": mod.compare(small, o, m) or d, "impl_observation": slim(mod, o),
                                           "model_observation": m, "disagreeing_cases": len(disagreements),
